@@ -163,3 +163,320 @@ Theorem linearise_tree name g :
                 end
     end.
 Proof. unfold linearise. rewrite lin_blocks_tree. reflexivity. Qed.
+
+(* ------------------------------------------------------------------------------------------ *)
+(** * The iterative DFS of networkx computes the textbook recursive DFS tree *)
+
+Section DtreeInd.
+  Variable P : dtree -> Prop.
+  Hypothesis H : forall n cs, Forall P cs -> P (DNode n cs).
+  Fixpoint dtree_nested_ind (t : dtree) : P t :=
+    match t with
+    | DNode n cs =>
+        H n cs ((fix go (l : list dtree) : Forall P l :=
+                   match l with
+                   | [] => Forall_nil P
+                   | c :: r => Forall_cons c (dtree_nested_ind c) (go r)
+                   end) cs)
+    end.
+End DtreeInd.
+
+Fixpoint pre (t : dtree) : list nat := match t with DNode n cs => n :: flat_map pre cs end.
+Definition pre_l (ts : list dtree) : list nat := flat_map pre ts.
+
+(** edges yielded while exploring the trees [ts] below [p], in yield order *)
+Fixpoint tedges (p : nat) (t : dtree) : list (nat * nat) :=
+  match t with DNode n cs => (p, n) :: flat_map (tedges n) cs end.
+Definition edges_l (p : nat) (ts : list dtree) : list (nat * nat) := flat_map (tedges p) ts.
+
+Lemma mem_In n l : mem n l = true <-> In n l.
+Proof.
+  unfold mem. rewrite existsb_exists. split.
+  - intros [x [Hx He]]. apply Nat.eqb_eq in He. now subst.
+  - intros Hn. exists n. split; [assumption|apply Nat.eqb_refl].
+Qed.
+
+Lemma mem_false n l : mem n l = false <-> ~ In n l.
+Proof. rewrite <- mem_In. destruct (mem n l); split; congruence. Qed.
+
+Section Dfs.
+  Variable sc : adjl.
+
+  (** recursive DFS over a child list: [R V cs V' ts k]: starting with visited set [V], looking at
+      the children [cs] in order yields the trees [ts] and visited set [V'], in [k] machine steps *)
+  Inductive R : list nat -> list nat -> list nat -> list dtree -> nat -> Prop :=
+  | RNil V : R V [] V [] 0
+  | RSkip V c cs V' ts k : mem c V = true -> R V cs V' ts k -> R V (c :: cs) V' ts (S k)
+  | RVisit V c cs V1 ts1 k1 V2 ts k2 :
+      mem c V = false -> R (c :: V) (adj sc c) V1 ts1 k1 -> R V1 cs V2 ts k2 ->
+      R V (c :: cs) V2 (DNode c ts1 :: ts) (S (k1 + S k2)).
+
+  Lemma dfs_loop_R V cs V' ts k :
+    R V cs V' ts k ->
+    forall p K D fuel,
+      dfs_loop (k + fuel) sc V ((p, cs) :: K) D = dfs_loop fuel sc V' ((p, []) :: K) (D ++ edges_l p ts).
+  Proof.
+    induction 1 as [V|V c cs V' ts k Hm _ IH|V c cs V1 ts1 k1 V2 ts k2 Hm _ IH1 _ IH2];
+      intros p K D fuel.
+    - cbn [edges_l flat_map]. now rewrite app_nil_r.
+    - cbn [Nat.add dfs_loop]. rewrite Hm. apply IH.
+    - cbn [Nat.add dfs_loop]. rewrite Hm.
+      rewrite <- Nat.add_assoc. rewrite IH1. cbn [Nat.add dfs_loop].
+      rewrite IH2. f_equal. cbn [edges_l flat_map tedges].
+      rewrite <- !app_assoc. reflexivity.
+  Qed.
+
+  Lemma R_visited V cs V' ts k : R V cs V' ts k -> V' = rev (pre_l ts) ++ V.
+  Proof.
+    induction 1 as [V|V c cs V' ts k Hm _ IH|V c cs V1 ts1 k1 V2 ts k2 Hm _ IH1 _ IH2].
+    - reflexivity.
+    - assumption.
+    - rewrite IH2, IH1.
+      change (pre_l (DNode c ts1 :: ts)) with ((c :: pre_l ts1) ++ pre_l ts).
+      rewrite rev_app_distr. cbn [rev]. rewrite <- !app_assoc. reflexivity.
+  Qed.
+
+  Lemma R_nodup V cs V' ts k : R V cs V' ts k -> NoDup V -> NoDup V'.
+  Proof.
+    induction 1 as [V|V c cs V' ts k Hm _ IH|V c cs V1 ts1 k1 V2 ts k2 Hm _ IH1 _ IH2]; intros Hn; auto.
+    apply IH2, IH1. constructor; [now apply mem_false|assumption].
+  Qed.
+
+  Definition wsum (l : list nat) : nat := fold_right (fun n a => S (length (adj sc n)) + a) 0 l.
+
+  Lemma wsum_app a b : wsum (a ++ b) = wsum a + wsum b.
+  Proof. unfold wsum. induction a as [|x a IH]; cbn [app fold_right]; [reflexivity|]. rewrite IH. lia. Qed.
+
+  Lemma R_cost V cs V' ts k : R V cs V' ts k -> k = length cs + wsum (pre_l ts).
+  Proof.
+    induction 1 as [V|V c cs V' ts k Hm _ IH|V c cs V1 ts1 k1 V2 ts k2 Hm _ IH1 _ IH2].
+    - reflexivity.
+    - cbn [length]. lia.
+    - change (pre_l (DNode c ts1 :: ts)) with ((c :: pre_l ts1) ++ pre_l ts).
+      rewrite wsum_app. change (wsum (c :: pre_l ts1)) with (S (length (adj sc c)) + wsum (pre_l ts1)).
+      cbn [length]. lia.
+  Qed.
+End Dfs.
+
+(** sum of out-degrees of distinct nodes is at most the number of edges *)
+Definition dsum (sc : adjl) (l : list nat) : nat := fold_right (fun n a => length (adj sc n) + a) 0 l.
+
+Lemma adj_cons k l sc n : adj ((k, l) :: sc) n = if Nat.eqb k n then l else adj sc n.
+Proof. unfold adj. cbn [lookup]. destruct (Nat.eqb k n); reflexivity. Qed.
+
+Lemma dsum_skip k l sc L : ~ In k L -> dsum ((k, l) :: sc) L = dsum sc L.
+Proof.
+  induction L as [|n L IH]; intros Hk; [reflexivity|].
+  cbn [dsum fold_right]. fold (dsum ((k, l) :: sc) L) (dsum sc L).
+  rewrite adj_cons. destruct (Nat.eqb k n) eqn:E.
+  - apply Nat.eqb_eq in E. subst. elim Hk. now left.
+  - rewrite IH; [reflexivity|]. intros Hi. apply Hk. now right.
+Qed.
+
+Lemma dsum_cons_le k l sc L : NoDup L -> dsum ((k, l) :: sc) L <= length l + dsum sc L.
+Proof.
+  induction L as [|n L IH]; intros Hn; [cbn; lia|].
+  inversion Hn as [|? ? Hni HnL]; subst.
+  cbn [dsum fold_right]. fold (dsum ((k, l) :: sc) L) (dsum sc L).
+  rewrite adj_cons. destruct (Nat.eqb k n) eqn:E.
+  - apply Nat.eqb_eq in E. subst. rewrite dsum_skip by assumption. lia.
+  - specialize (IH HnL). lia.
+Qed.
+
+Lemma dsum_le sc L : NoDup L -> dsum sc L <= n_edges sc.
+Proof.
+  revert L. induction sc as [|[k l] sc IH]; intros L Hn.
+  - induction L as [|n L IHL]; [reflexivity|]. inversion Hn; subst. cbn. now apply IHL.
+  - cbn [n_edges fold_right snd]. fold (n_edges sc).
+    pose proof (dsum_cons_le k l sc L Hn). specialize (IH L Hn). lia.
+Qed.
+
+Lemma wsum_dsum sc L : wsum sc L = length L + dsum sc L.
+Proof.
+  induction L as [|n L IH]; [reflexivity|].
+  change (wsum sc (n :: L)) with (S (length (adj sc n)) + wsum sc L).
+  change (dsum sc (n :: L)) with (length (adj sc n) + dsum sc L).
+  cbn [length]. lia.
+Qed.
+
+(** ** the successor dictionary of the yielded edges unfolds back into the tree *)
+
+Lemma adj_dict_append d s t n :
+  adj (dict_append d s t) n = if Nat.eqb s n then adj d n ++ [t] else adj d n.
+Proof.
+  induction d as [|[k l] r IH].
+  - cbn [dict_append]. rewrite adj_cons. destruct (Nat.eqb s n); reflexivity.
+  - cbn [dict_append]. destruct (Nat.eqb k s) eqn:Eks.
+    + apply Nat.eqb_eq in Eks. subst k. rewrite !adj_cons. destruct (Nat.eqb s n); reflexivity.
+    + rewrite !adj_cons, IH. destruct (Nat.eqb k n) eqn:Ekn; [|reflexivity].
+      apply Nat.eqb_eq in Ekn. subst k. now rewrite Nat.eqb_sym, Eks.
+Qed.
+
+Definition out_of (n : nat) (es : list (nat * nat)) : list nat :=
+  map snd (filter (fun e => Nat.eqb (fst e) n) es).
+
+Lemma adj_fold es d0 n :
+  adj (fold_left (fun d st => dict_append d (fst st) (snd st)) es d0) n = adj d0 n ++ out_of n es.
+Proof.
+  revert d0. induction es as [|[s t] es IH]; intros d0.
+  - cbn. now rewrite app_nil_r.
+  - cbn [fold_left fst snd]. rewrite IH, adj_dict_append. unfold out_of. cbn [filter fst].
+    destruct (Nat.eqb s n); cbn [map snd]; [rewrite <- app_assoc|]; reflexivity.
+Qed.
+
+Lemma adj_dict_of_edges es n : adj (dict_of_edges es) n = out_of n es.
+Proof. unfold dict_of_edges. now rewrite adj_fold. Qed.
+
+Lemma out_of_app n a b : out_of n (a ++ b) = out_of n a ++ out_of n b.
+Proof. unfold out_of. now rewrite filter_app, map_app. Qed.
+
+Lemma nodup_app {A} (a b : list A) :
+  NoDup (a ++ b) <-> NoDup a /\ NoDup b /\ (forall x, In x a -> ~ In x b).
+Proof.
+  induction a as [|x a IH]; cbn [app].
+  - split; [intros H; repeat split; [constructor|assumption|intros ? []]|tauto].
+  - split.
+    + intros H. inversion H as [|? ? Hx Hab]; subst. apply IH in Hab as [Ha [Hb Hd]].
+      repeat split; [constructor; [intros Hi; apply Hx, in_or_app; auto|assumption]|assumption|].
+      intros y [->|Hy]; [intros Hi; apply Hx, in_or_app; auto|now apply Hd].
+    + intros [Ha [Hb Hd]]. inversion Ha as [|? ? Hx Ha']; subst. constructor.
+      * intros Hi. apply in_app_or in Hi as [Hi|Hi]; [auto|]. apply (Hd x); [now left|assumption].
+      * apply IH. repeat split; auto. intros y Hy. apply Hd. now right.
+Qed.
+
+(** children of node [n] in a tree (empty when absent) *)
+Fixpoint kids (n : nat) (t : dtree) : list nat :=
+  match t with
+  | DNode m cs => if Nat.eqb m n then map root cs else flat_map (kids n) cs
+  end.
+
+Definition edges_of (t : dtree) : list (nat * nat) :=
+  match t with DNode m cs => edges_l m cs end.
+
+Lemma tedges_eq p t : tedges p t = (p, root t) :: edges_of t.
+Proof. destruct t; reflexivity. Qed.
+
+Lemma kids_absent n t : ~ In n (pre t) -> kids n t = [].
+Proof.
+  induction t as [m cs IH] using dtree_nested_ind. intros Hn.
+  cbn [kids]. cbn [pre] in Hn. destruct (Nat.eqb m n) eqn:E.
+  - apply Nat.eqb_eq in E. subst. elim Hn. now left.
+  - assert (Hc : ~ In n (flat_map pre cs)) by (intros Hi; apply Hn; now right).
+    clear Hn E. induction IH as [|c r Hc0 _ IHr]; [reflexivity|].
+    cbn [flat_map] in *. rewrite Hc0, IHr; [reflexivity| |];
+      intros Hi; apply Hc, in_or_app; auto.
+Qed.
+
+Lemma out_of_edges n t : NoDup (pre t) -> out_of n (edges_of t) = kids n t.
+Proof.
+  induction t as [m cs IH] using dtree_nested_ind. intros Hnd.
+  cbn [edges_of kids]. cbn [pre] in Hnd. inversion Hnd as [|? ? Hm Hcs]; subst. clear Hnd.
+  destruct (Nat.eqb m n) eqn:E.
+  - apply Nat.eqb_eq in E. subst n.
+    induction IH as [|c r Hc0 _ IHr]; [reflexivity|].
+    cbn [flat_map] in Hm, Hcs. apply nodup_app in Hcs as [Hc1 [Hc2 _]].
+    unfold edges_l in *. cbn [flat_map map]. rewrite out_of_app, tedges_eq.
+    unfold out_of at 1. cbn [filter fst]. rewrite Nat.eqb_refl. cbn [map snd].
+    fold (out_of m (edges_of c)). rewrite Hc0 by assumption.
+    rewrite kids_absent by (intros Hi; apply Hm, in_or_app; auto). cbn [app].
+    f_equal. apply IHr; [intros Hi; apply Hm, in_or_app; auto|assumption].
+  - clear Hm. induction IH as [|c r Hc0 _ IHr]; [reflexivity|].
+    cbn [flat_map] in Hcs. apply nodup_app in Hcs as [Hc1 [Hc2 _]].
+    unfold edges_l in *. cbn [flat_map]. rewrite out_of_app, tedges_eq.
+    unfold out_of at 1. cbn [filter fst]. rewrite E.
+    fold (out_of n (edges_of c)). rewrite Hc0 by assumption. f_equal. now apply IHr.
+Qed.
+
+Fixpoint height (t : dtree) : nat :=
+  match t with DNode _ cs => S (fold_right (fun c a => Nat.max (height c) a) 0 cs) end.
+
+Definition agree (d : adjl) (t : dtree) : Prop := forall n, In n (pre t) -> adj d n = kids n t.
+
+Lemma flat_kids_absent n cs : ~ In n (flat_map pre cs) -> flat_map (kids n) cs = [].
+Proof.
+  induction cs as [|y r IHr]; intros Hn; [reflexivity|]. cbn [flat_map] in *.
+  rewrite kids_absent, IHr; [reflexivity| |]; intros Hi; apply Hn, in_or_app; auto.
+Qed.
+
+Lemma flat_kids_in n c cs :
+  In c cs -> In n (pre c) -> NoDup (flat_map pre cs) -> flat_map (kids n) cs = kids n c.
+Proof.
+  induction cs as [|x r IH]; intros Hc Hn Hnd; [contradiction|].
+  cbn [flat_map] in *. apply nodup_app in Hnd as [H1 [H2 Hd]].
+  destruct Hc as [->|Hc].
+  - rewrite flat_kids_absent by now apply Hd. now rewrite app_nil_r.
+  - rewrite kids_absent, IH; auto.
+    intros Hi. apply (Hd n Hi). apply in_flat_map. exists c. auto.
+Qed.
+
+Lemma agree_node d m cs :
+  agree d (DNode m cs) -> NoDup (pre (DNode m cs)) ->
+  adj d m = map root cs /\ forall c, In c cs -> agree d c.
+Proof.
+  intros Ha Hnd. cbn [pre] in Hnd. inversion Hnd as [|? ? Hm Hcs]; subst. split.
+  - rewrite (Ha m) by (now left). cbn [kids]. now rewrite Nat.eqb_refl.
+  - intros c Hc n Hn.
+    assert (Hin : In n (flat_map pre cs)) by (apply in_flat_map; exists c; auto).
+    rewrite (Ha n) by (now right). cbn [kids].
+    destruct (Nat.eqb m n) eqn:E; [apply Nat.eqb_eq in E; subst; contradiction|].
+    now apply flat_kids_in.
+Qed.
+
+Lemma height_child c cs : In c cs -> height c <= fold_right (fun c a => Nat.max (height c) a) 0 cs.
+Proof.
+  induction cs as [|x r IH]; [intros []|]. cbn [fold_right]. intros [->|Hc]; [lia|].
+  specialize (IH Hc). lia.
+Qed.
+
+Lemma build_agree d t :
+  forall fuel, agree d t -> NoDup (pre t) -> height t <= fuel -> build_tree d fuel (root t) = Some t.
+Proof.
+  induction t as [m cs IH] using dtree_nested_ind. intros fuel Ha Hnd Hh.
+  destruct fuel as [|f]; [cbn [height] in Hh; lia|].
+  destruct (agree_node d m cs Ha Hnd) as [Hadj Hcs].
+  cbn [root]. rewrite build_tree_S, Hadj.
+  assert (Hm : map_opt (build_tree d f) (map root cs) = Some cs).
+  { cbn [pre] in Hnd. inversion Hnd as [|? ? _ Hnd']; subst. clear Hnd Ha Hadj.
+    cbn [height] in Hh. apply le_S_n in Hh.
+    induction IH as [|c r Hc _ IHr]; [reflexivity|].
+    cbn [flat_map] in Hnd'. apply nodup_app in Hnd' as [H1 [H2 _]].
+    cbn [fold_right] in Hh. cbn [map map_opt].
+    rewrite Hc; [|apply Hcs; now left|assumption|lia].
+    rewrite IHr; [reflexivity|lia| |assumption]. intros c' Hc'. apply Hcs. now right. }
+  now rewrite Hm.
+Qed.
+
+Lemma height_le_pre t : height t <= length (pre t).
+Proof.
+  induction t as [m cs IH] using dtree_nested_ind. cbn [height pre length]. apply le_n_S.
+  induction IH as [|c r Hc _ IHr]; [reflexivity|].
+  cbn [fold_right flat_map]. rewrite app_length. lia.
+Qed.
+
+(** Main generic fact: if the recursive DFS from [h] yields the child trees [ts], then so does the
+    networkx stack machine followed by the unfolding of its successor dictionary, provided the
+    number of nodes is at least the number of nodes reached (fuel). *)
+Theorem dfs_tree_R sc nn h V' ts k :
+  R sc [h] (adj sc h) V' ts k -> length (pre (DNode h ts)) <= nn ->
+  dfs_tree_of sc nn h = Some (DNode h ts).
+Proof.
+  intros HR Hlen.
+  assert (Hnd : NoDup (pre (DNode h ts))).
+  { pose proof (R_nodup _ _ _ _ _ _ HR) as Hn. rewrite (R_visited _ _ _ _ _ _ HR) in Hn.
+    specialize (Hn (NoDup_cons h (@in_nil _ h) (NoDup_nil _))).
+    apply NoDup_rev in Hn. rewrite rev_app_distr, rev_involutive in Hn. exact Hn. }
+  pose proof (R_cost _ _ _ _ _ _ HR) as Hk.
+  assert (Hfuel : S k <= nn + n_edges sc).
+  { pose proof (wsum_dsum sc (pre (DNode h ts))) as Hw.
+    change (wsum sc (pre (DNode h ts))) with (S (length (adj sc h)) + wsum sc (pre_l ts)) in Hw.
+    pose proof (dsum_le sc _ Hnd). lia. }
+  unfold dfs_tree_of.
+  replace (nn + n_edges sc) with (k + S (nn + n_edges sc - S k)) by lia.
+  rewrite (dfs_loop_R _ _ _ _ _ _ HR). cbn [dfs_loop app].
+  replace (dfs_loop (nn + n_edges sc - S k) sc V' [] (edges_l h ts)) with (Some (edges_l h ts))
+    by (destruct (nn + n_edges sc - S k); reflexivity).
+  apply (build_agree _ (DNode h ts)).
+  - intros n _. rewrite adj_dict_of_edges. now apply (out_of_edges n (DNode h ts)).
+  - assumption.
+  - pose proof (height_le_pre (DNode h ts)). lia.
+Qed.
